@@ -1,11 +1,11 @@
 /-
   C07, first clause chained end to end — part A: contig ends of adjacencies, list lemmas.
     `inputAdj` / `IsInputAdj`   the (unordered) pairs of facing contig ends of directly adjacent fragment rows of the input
-    A1 `slice_adjacent`         adjacencies inside a contiguous slice are adjacencies of the whole
-    A2 `trim_keeps_inner_ends`  a result that satisfies the C18 content invariant (contiguous run, only the terminal fragments
+    A1 `slice_adjacent_aux`         adjacencies inside a contiguous slice are adjacencies of the whole
+    A2 `trim_keeps_inner_ends_aux`  a result that satisfies the C18 content invariant (contiguous run, only the terminal fragments
                                 shortened, only at their OUTER end) has only adjacencies whose facing ends are those of an
                                 adjacency of the source
-    A3 `reverse_adjacent`       reversing a run (minus bait) maps every adjacency to the same unordered pair of ends
+    A3 `reverse_adjacent_aux`       reversing a run (minus bait) maps every adjacency to the same unordered pair of ends
 -/
 import AgpTpf.Proofs.C07Lemmas
 import AgpTpf.Proofs.C18
@@ -61,13 +61,13 @@ theorem infix_adjacent {l src : List Row} (h : l <:+: src) : ∀ pr ∈ adjPairs
   exact Or.inl (Or.inl (Or.inr hp))
 
 /-- A1: gapless adjacencies inside the slice `src[i : i+n]` of an input scaffold's rows are input adjacencies -/
-theorem slice_adjacent (src : List Row) (i n : Nat) : ∀ pr ∈ adjPairs ((src.drop i).take n), pr ∈ adjPairs src :=
+theorem slice_adjacent_aux (src : List Row) (i n : Nat) : ∀ pr ∈ adjPairs ((src.drop i).take n), pr ∈ adjPairs src :=
   infix_adjacent ((List.take_prefix _ _).isInfix.trans (List.drop_suffix _ _).isInfix)
 
 theorem slice_adjacent_input (input : List Scaffold) (sc : Scaffold) (hsc : sc ∈ input) (i n : Nat) :
     ∀ pr ∈ adjPairs ((sc.rows.drop i).take n), IsInputAdj input (facingEnds pr.1 pr.2) := by
   rintro ⟨a, b⟩ hp
-  exact isInputAdj_of input sc hsc a b (slice_adjacent _ _ _ _ hp) _ (SameAdj.refl _)
+  exact isInputAdj_of input sc hsc a b (slice_adjacent_aux _ _ _ _ hp) _ (SameAdj.refl _)
 
 /-! ### A2 -/
 
@@ -106,7 +106,7 @@ theorem adjPairs_cons_concat (x y : Row) (mid : List Row) :
     `discard_start/end` only remove rows at the ends, so in a result satisfying the C18 content invariant the end of
     a terminal fragment that faces its inner neighbour is the source fragment's end: every adjacency of the result
     has the facing ends (and strands) of an adjacency of the source scaffold. -/
-theorem trim_keeps_inner_ends {src : List Row} {o : OverlapResult} (hc : C18.Content src o) :
+theorem trim_keeps_inner_ends_aux {src : List Row} {o : OverlapResult} (hc : C18.Content src o) :
     ∀ a b, (a, b) ∈ adjPairs o.rows → FromAdj src a b := by
   intro a b hab
   cases hc with
@@ -159,7 +159,7 @@ theorem facingEnds_mirror (a b : Fragment) (ha : StrandPM a) (hb : StrandPM b) :
 
 /-- A3: reversing a run (order and strands, as for a minus bait) maps every adjacency to an adjacency of the run with
     the same UNORDERED pair of facing ends (for strands ±1). -/
-theorem reverse_adjacent (l : List Row) :
+theorem reverse_adjacent_aux (l : List Row) :
     ∀ pr ∈ adjPairs (l.reverse.map Row.reverse), ∃ q ∈ adjPairs l, pr = mirror q ∧
       (StrandPM q.1 → StrandPM q.2 → SameAdj (facingEnds pr.1 pr.2) (facingEnds q.1 q.2)) := by
   intro pr hp
@@ -178,14 +178,14 @@ theorem toScaffoldRows_adjacent {src : List Row} {o : OverlapResult} (hc : C18.C
   have key : ∀ a b, (a, b) ∈ adjPairs o.rows →
       ∃ q ∈ adjPairs src, facingEnds a b = facingEnds q.1 q.2 ∧ StrandPM a ∧ StrandPM b := by
     intro a b hab
-    obtain ⟨a0, b0, h0, e1, e2, s1, s2⟩ := trim_keeps_inner_ends hc a b hab
+    obtain ⟨a0, b0, h0, e1, e2, s1, s2⟩ := trim_keeps_inner_ends_aux hc a b hab
     obtain ⟨p1, p2⟩ := hsrc _ h0
     refine ⟨(a0, b0), h0, by simp [facingEnds, e1, e2], ?_, ?_⟩
     · unfold StrandPM; rw [s1]; exact p1
     · unfold StrandPM; rw [s2]; exact p2
   unfold OverlapResult.toScaffoldRows at hp
   split at hp
-  · obtain ⟨⟨a, b⟩, hq, rfl, hsame⟩ := reverse_adjacent _ pr hp
+  · obtain ⟨⟨a, b⟩, hq, rfl, hsame⟩ := reverse_adjacent_aux _ pr hp
     obtain ⟨q0, hq0, e, sa, sb⟩ := key a b hq
     exact ⟨q0, hq0, e ▸ hsame sa sb⟩
   · obtain ⟨a, b⟩ := pr
